@@ -18,6 +18,7 @@ CONSTANTS
   Cuts = FALSE
   MaxNow = 0
   MaxLevel = 999
+  Pipe = FALSE
   MaxDin = 3
 INIT MCInit
 NEXT MCNext
